@@ -23,6 +23,8 @@ thread_local! {
     /// live-object accounting for C20: +1 on creation, -1 on drop, per class
     static LIVE: RefCell<[i64; 3]> = const { RefCell::new([0; 3]) };   // modules, elements, message bodies
     static DROPPED_TWICE: RefCell<u64> = const { RefCell::new(0) };
+    /// side channel (not part of the compared log): (module, incarnation, log length) at every scripted panic
+    static PANICS: RefCell<Vec<(String, u32, usize)>> = const { RefCell::new(Vec::new()) };
 }
 
 fn tick() -> Duration {
@@ -155,7 +157,11 @@ impl Scripted {
                 }
                 "shutdown" => current().shutdown(),
                 "restart" => current().shutdow_and_restart_in(d),
-                "panic" => panic!("scripted panic"),
+                "panic" => {
+                    let at = LOG.with(|l| l.borrow().len());
+                    PANICS.with(|p| p.borrow_mut().push((self.name.clone(), self.inc, at)));
+                    panic!("scripted panic")
+                }
                 other => panic!("unknown command {other}"),
             }
         }
@@ -329,6 +335,8 @@ pub struct Outcome {
     pub log: Vec<Value>,
     pub err: BTreeSet<String>,
     pub tend: i64,
+    /// per module: "no" (never panicked) | "dead" (panicked, nothing of it ran in a later incarnation) | "revived"
+    pub dead: std::collections::BTreeMap<String, &'static str>,
     pub result_ok: bool,
     pub live_after_drop: [i64; 3],
     pub dropped_twice: u64,
@@ -404,7 +412,7 @@ pub fn run_scenario_stop(cfg: &NetCfg, scripts: &Value, seed: u64, stop: &str) -
         let rt = Builder::seeded(seed).quiet().max_time(limit).build(sim.freeze());
         Some(rt.run())
     }));
-    let mut out = Outcome { gates_alive: 0, channels_alive: 0, log: Vec::new(), err: BTreeSet::new(), tend: -1, result_ok: false, live_after_drop: [0; 3], dropped_twice: 0, panicked: false };
+    let mut out = Outcome { gates_alive: 0, channels_alive: 0, log: Vec::new(), err: BTreeSet::new(), tend: -1, result_ok: false, live_after_drop: [0; 3], dropped_twice: 0, panicked: false, dead: Default::default() };
     match r {
         Err(_) => out.panicked = true,
         Ok(None) => {}
@@ -431,6 +439,16 @@ pub fn run_scenario_stop(cfg: &NetCfg, scripts: &Value, seed: u64, stop: &str) -
         }
     }
     out.log = LOG.with(|l| l.borrow().clone());
+    for m in &cfg.mods {
+        out.dead.insert(m.clone(), "no");
+    }
+    for (m, inc, at) in PANICS.with(|p| std::mem::take(&mut *p.borrow_mut())) {
+        // after its panic the module handled a message or was started afresh (stage 0 after a panic can only be a restart)
+        let _ = inc;
+        let again = out.log[at..].iter().any(|e| e["m"] == m.as_str() && (e["o"] == "msg" || (e["o"] == "start" && e["stage"] == 0)));
+        let cur = out.dead.get(&m).copied().unwrap_or("no");
+        out.dead.insert(m, if again || cur == "revived" { "revived" } else { "dead" });
+    }
     out.live_after_drop = LIVE.with(|l| *l.borrow());
     out.dropped_twice = DROPPED_TWICE.with(|d| *d.borrow());
     out.gates_alive = WEAK_GATES.with(|w| w.borrow().iter().filter(|g| g.strong_count() > 0).count());
@@ -538,6 +556,23 @@ pub fn replay(args: &[String]) {
         if out.live_after_drop != [0; 3] || out.dropped_twice != 0 || out.gates_alive != 0 || out.channels_alive != 0 {
             fail("objects alive after the simulation was dropped [modules, elements, message bodies] / double drops", json!({"got": out.live_after_drop, "double_drops": out.dropped_twice, "gates_alive": out.gates_alive, "channels_alive": out.channels_alive}));
             return;
+        }
+        if let Some(d) = v.get("dead").and_then(Value::as_object) {
+            // C13: which modules panicked, and which of those ran again afterwards
+            let exp: std::collections::BTreeMap<String, &str> = d.iter().map(|(k, x)| (k.clone(), match x.as_str().unwrap() { "pending" => "dead", o => o })).collect();
+            let got: std::collections::BTreeMap<String, &str> = out.dead.iter().map(|(k, x)| (k.clone(), *x)).collect();
+            if exp != got {
+                s.mismatch(json!({"field": "modules that panicked / ran again after their panic", "behaviour": v, "cfg": cfgv, "expected": exp, "got": got, "got_log": out.log}));
+                return;
+            }
+            if got.values().any(|x| *x == "revived") {
+                s.bump("panicked_module_ran_again", 1);
+                if s.extra.get("panicked_module_ran_again_sample").is_none() {
+                    s.extra.insert("panicked_module_ran_again_sample".into(), json!({"behaviour": v, "cfg": cfgv, "got_log": out.log, "dead": got}));
+                }
+            } else if got.values().any(|x| *x == "dead") {
+                s.bump("panicked_module_stayed_inert", 1);
+            }
         }
         s.checks += out.log.len() as u64 + 3;
         // C20: the same scenario dropped at other stopping points; only the object accounting is compared
